@@ -22,21 +22,33 @@
     * `C05_batch_stops_at_first_failure` — if the callback fails at its (k+1)-th invocation the run returns that error
                                            after exactly k+1 invocations; if the context is cancelled once k invocations
                                            have been made the run returns `cancelled` after exactly k invocations.
-    * `C05_batch_decision_eq_direct_partial` — every result's decision and reasons (list of ids and positions) equal the
-                                           ordinary authorizer's on the fully substituted request, for EVERY policy set
-                                           and template, under the premise that no ignore marker is met at any
-                                           enumeration level (`runDomain`, decidable): C06's soundness — which since the
-                                           repairs of partial.go holds for every policy — composed level by level.
-    * `C05_batch_eq_brute_force_partial`   — all of the above in one statement for a run without callback failure /
-                                           cancellation.
-  NOT PROVED: the premise is expressed through the model's partial evaluator (`runDomain`) rather than on the inputs;
-  the diagnostic's error list is not compared (the property does not ask); ignored parts are left to the direct
-  oracle's weak (widening) check.  The direct oracle (harness/cmd/vh/c05.go) decides the full statement on the
-  implementation.
+    * `C05_runDomain_of_inputs`          — the INPUT-level premises imply the model-level one: for a template and store
+                                           without ignore markers (`noIgnoreInput`), value lists without ignore markers and
+                                           policies without ignore markers in their literals and with distinct record keys
+                                           (`Policy.noIgnoreLits`, `Policy.recKeysDistinct`), no ignore marker is met at any
+                                           level of the enumeration (`runDomain`).  The invariant of Lemmas/C06Inv.lean
+                                           (partial evaluation of ignore-free inputs never answers `errIgnore`, residuals
+                                           are again ignore-free with distinct keys) carried down the enumeration.
+    * `C05_batch_decision_eq_direct`     — FULL: every result's decision and reasons (list of ids and positions) equal
+                                           the ordinary authorizer's on the fully substituted request, for EVERY policy
+                                           set, store and template satisfying the input-level premises above: C06's
+                                           soundness composed level by level.
+    * `C05_batch_eq_brute_force`         — all of the above in one statement for a run without callback failure /
+                                           cancellation: exactly once per element of the product, in order, with that
+                                           substitution, the fully substituted request, and `authorize`'s decision and
+                                           reasons on it.  The premise "every request is well-typed" is stated on the
+                                           inputs too (`requestTyped (substManyEnv σs env)` for every σs of the product).
+    * `C05_batchAuthorize_eq_brute_force` — the same for the entry point `batch.Authorize` (which treats the template
+                                           without variables separately: one partial evaluation, one leaf).
+  NOT PROVED: the diagnostic's error list is not compared (the property does not ask; C06 shows error-NESS agrees per
+  policy: `C06_partial_keep_errors_agree`); templates with ignored parts are left to C06's widening clause
+  (`C06_partial_ignore_widens`) and the direct oracle.  The direct oracle (harness/cmd/vh/c05.go) decides the full
+  statement on the implementation.
 -/
 import CedarGo.Model.Batch
 import CedarGoProofs.Lemmas.C05
 import CedarGoProofs.Lemmas.C05Decision
+import CedarGoProofs.Lemmas.C05Full
 namespace CedarGo
 
 /-! ## substitution -/
@@ -152,34 +164,46 @@ theorem C05_batch_stops_when_cancelled {ε : Type} (cancelled : Nat → Bool) (c
 
 /-! ## decision and reasons -/
 
+/-- The model-level premise of the decision theorem ("no ignore marker is met at any enumeration level", `runDomain`)
+    follows from structural premises on the INPUTS: no ignore marker in the template or the store, in the value lists, in
+    the literals of the policies; record literals with distinct keys. -/
+theorem C05_runDomain_of_inputs (vars : List (String × List Value)) (env : Env) (ps : List (PolicyID × Policy))
+    (hE : noIgnoreInput env = true) (hv : ∀ kv ∈ vars, ∀ v ∈ kv.2, v.hasIgnore = false)
+    (hp : ∀ ip ∈ ps, ip.2.noIgnoreLits = true ∧ ip.2.recKeysDistinct = true) :
+    noIgnoredPart env = true ∧ runDomain vars env ps = true :=
+  ⟨noIgnoredPart_of_inputs hE, runDomain_of_inputs vars env ps hE hv hp⟩
+
 /-- Every result carries the decision and the reasons of the ordinary authorizer on ITS fully substituted request.
-    Full statement: for every policy set, store and template.  Proved here under the premise that no ignore marker is
-    met (`noIgnoredPart`, value lists without ignore markers, and `runDomain` = at no enumeration level does the partial
-    evaluation of a condition report `errIgnore`; decidable) — the property promises equality only for templates with
-    variables; ignored parts only widen (C06).  The proof is C06's policy-level soundness applied at every enumeration
-    level: the final request completes EVERY level's template (`completion_substMany`), and `authorize` only looks at
-    which policies are satisfied.  Reasons are equal as LISTS (ids and positions, in policy order); the errors of the
-    diagnostic are not compared (error-ness is not preserved by partial evaluation, and the property does not ask). -/
-theorem C05_batch_decision_eq_direct_partial (vars : List (String × List Value)) (env : Env)
-    (ps : List (PolicyID × Policy)) (hi : noIgnoredPart env = true)
-    (hv : ∀ kv ∈ vars, ∀ v ∈ kv.2, v.isIgnore = false) (hd : runDomain vars env ps = true) :
+    FULL: for every policy set, store and template — without ignore markers (the property promises equality for templates
+    with variables; ignored parts only widen: C06) and with record literals that list a key once.  The proof is C06's
+    policy-level soundness applied at every enumeration level: the final request completes EVERY level's template
+    (`completion_substMany`), the residual policies of a level satisfy the premises again (`partialPolicy_good`), and
+    `authorize` only looks at which policies are satisfied.  Reasons are equal as LISTS (ids and positions, in policy
+    order); the errors of the diagnostic are not compared (the property does not ask). -/
+theorem C05_batch_decision_eq_direct (vars : List (String × List Value)) (env : Env)
+    (ps : List (PolicyID × Policy)) (hE : noIgnoreInput env = true)
+    (hv : ∀ kv ∈ vars, ∀ v ∈ kv.2, v.hasIgnore = false)
+    (hp : ∀ ip ∈ ps, ip.2.noIgnoreLits = true ∧ ip.2.recKeysDistinct = true) :
     ∀ o ∈ trace vars env ps [], ∀ r, o.2 = some r →
       r.allow = (authorize ps (substManyEnv o.1 env)).allow ∧
       r.reasons = (authorize ps (substManyEnv o.1 env)).reasons := by
   intro o ho r hr
-  obtain ⟨σs, h1, h2⟩ := trace_decision vars env ps [] hi hv hd o ho
+  obtain ⟨σs, h1, h2⟩ := trace_decision vars env ps [] (noIgnoredPart_of_inputs hE)
+    (fun kv hkv v hvm => isIgnore_of_hasIgnore (hv kv hkv v hvm)) (runDomain_of_inputs vars env ps hE hv hp) o ho
   have h1' : o.1 = σs := by simpa using h1
   subst h1'
   exact h2 r hr
 
 /-- The whole statement for a run whose callback never fails and is never cancelled: exactly once per element of the
-    product, with that substitution, the fully substituted request, and the ordinary authorizer's decision and reasons. -/
-theorem C05_batch_eq_brute_force_partial {ε : Type} (cb : BResult → Except ε Unit)
+    product, with that substitution, the fully substituted request, and the ordinary authorizer's decision and reasons.
+    Every hypothesis is about the inputs: non-empty value lists, every substituted request well-typed (entities for
+    principal / action / resource, a record for the context), no ignore markers, distinct record keys. -/
+theorem C05_batch_eq_brute_force {ε : Type} (cb : BResult → Except ε Unit)
     (vars : List (String × List Value)) (env : Env) (ps : List (PolicyID × Policy))
     (hne : ∀ kv ∈ vars, kv.2 ≠ []) (hcb : ∀ r, cb r = .ok ())
-    (hvalid : ∀ o ∈ trace vars env ps [], o.2.isSome = true)
-    (hi : noIgnoredPart env = true) (hv : ∀ kv ∈ vars, ∀ v ∈ kv.2, v.isIgnore = false)
-    (hd : runDomain vars env ps = true) :
+    (htyped : ∀ σs ∈ product vars, requestTyped (substManyEnv σs env) = true)
+    (hE : noIgnoreInput env = true) (hv : ∀ kv ∈ vars, ∀ v ∈ kv.2, v.hasIgnore = false)
+    (hp : ∀ ip ∈ ps, ip.2.noIgnoreLits = true ∧ ip.2.recKeysDistinct = true) :
     ∃ calls, doBatch (fun _ => false) cb vars env ps [] [] = .ok calls ∧
       calls.map (·.values) = product vars ∧
       ∀ r ∈ calls,
@@ -187,27 +211,83 @@ theorem C05_batch_eq_brute_force_partial {ε : Type} (cb : BResult → Except ε
         r.resource = substMany r.values env.resource ∧ r.context = substMany r.values env.context ∧
         r.allow = (authorize ps (substManyEnv r.values env)).allow ∧
         r.reasons = (authorize ps (substManyEnv r.values env)).reasons := by
+  have hi := noIgnoredPart_of_inputs hE
+  have hv' : ∀ kv ∈ vars, ∀ v ∈ kv.2, v.isIgnore = false := fun kv hkv v hvm => isIgnore_of_hasIgnore (hv kv hkv v hvm)
+  have hvalid := trace_valid_of_typed vars env ps hi hv' htyped
   obtain ⟨calls, h1, h2, h3⟩ := C05_batch_calls_eq_product cb vars env ps hne hcb hvalid
   refine ⟨calls, h1, h2, ?_⟩
   intro r hr
   have : some r ∈ (trace vars env ps []).map (·.2) := by rw [← h3]; exact List.mem_map_of_mem hr
   obtain ⟨o, ho, hor⟩ := List.mem_map.mp this
   have hval : r.values = o.1 := trace_leaf_values vars env ps [] o ho r hor
-  obtain ⟨_, hreq⟩ := C05_batch_requests_fully_substituted vars env ps hi hv o ho
+  obtain ⟨_, hreq⟩ := C05_batch_requests_fully_substituted vars env ps hi hv' o ho
   obtain ⟨a, b, c, d⟩ := hreq r hor
-  obtain ⟨e, f⟩ := C05_batch_decision_eq_direct_partial vars env ps hi hv hd o ho r hor
+  obtain ⟨e, f⟩ := C05_batch_decision_eq_direct vars env ps hE hv hp o ho r hor
   rw [hval]
   exact ⟨a, b, c, d, e, f⟩
 
+/-- The same for the entry point `batch.Authorize` (after its unbound / unused-variable checks).  A template without
+    variables is handled separately by the code (ignore markers resolved up front, one partial evaluation, one leaf);
+    the statement is the same: one result, for the empty substitution, with `authorize`'s decision and reasons. -/
+theorem C05_batchAuthorize_eq_brute_force {ε : Type} (cb : BResult → Except ε Unit)
+    (vars : List (String × List Value)) (env : Env) (ps : List (PolicyID × Policy))
+    (hne : ∀ kv ∈ vars, kv.2 ≠ []) (hcb : ∀ r, cb r = .ok ())
+    (htyped : ∀ σs ∈ product vars, requestTyped (substManyEnv σs env) = true)
+    (hE : noIgnoreInput env = true) (hv : ∀ kv ∈ vars, ∀ v ∈ kv.2, v.hasIgnore = false)
+    (hp : ∀ ip ∈ ps, ip.2.noIgnoreLits = true ∧ ip.2.recKeysDistinct = true) :
+    ∃ calls, batchAuthorize (fun _ => false) cb vars env ps = .ok calls ∧
+      calls.map (·.values) = product vars ∧
+      ∀ r ∈ calls,
+        r.principal = substMany r.values env.principal ∧ r.action = substMany r.values env.action ∧
+        r.resource = substMany r.values env.resource ∧ r.context = substMany r.values env.context ∧
+        r.allow = (authorize ps (substManyEnv r.values env)).allow ∧
+        r.reasons = (authorize ps (substManyEnv r.values env)).reasons := by
+  have hany : vars.any (·.2.isEmpty) = false := by
+    cases h : vars.any (·.2.isEmpty)
+    · rfl
+    · obtain ⟨kv, hkv, he⟩ := List.any_eq_true.mp h
+      exact absurd (List.isEmpty_iff.mp he) (hne kv hkv)
+  cases vars with
+  | nil =>
+    have ht : requestTyped env = true := htyped [] (by simp [product])
+    have hfix : fixIgnores env = env := fixIgnores_noop env (noIgnoredPart_of_inputs hE)
+    have hsome := leafResult_isSome env (doPartial env ps) [] ht
+    cases hl : leafResult env (doPartial env ps) [] with
+    | none => rw [hl] at hsome; cases hsome
+    | some r =>
+      refine ⟨[r], ?_, ?_, ?_⟩
+      · simp [batchAuthorize, doBatch, leaf, hfix, hl, hcb]
+      · simp [product, leafResult_values _ _ _ _ hl]
+      · intro r' hr'
+        simp only [List.mem_singleton] at hr'
+        subst hr'
+        obtain ⟨a, b, c, d, _⟩ := leafResult_parts _ _ _ _ hl
+        obtain ⟨e, f⟩ := leafResult_decision _ _ _ _ hl
+        have hd : (ps.all fun ip => partialDomain env ip.2) = true :=
+          List.all_eq_true.mpr (fun ip hip => partialDomain_of_inputs hE (hp ip hip).1 (hp ip hip).2)
+        obtain ⟨g1, g2⟩ := authorize_doPartial id env env rfl (fun x => by cases x <;> rfl) ps hd
+        rw [leafResult_values _ _ _ _ hl]
+        exact ⟨a, b, c, d, e.trans g1, f.trans g2⟩
+  | cons kv rest =>
+    obtain ⟨calls, h1, h2, h3⟩ := C05_batch_eq_brute_force cb (kv :: rest) env ps hne hcb htyped hE hv hp
+    refine ⟨calls, ?_, h2, h3⟩
+    simp only [batchAuthorize, hany, Bool.false_eq_true, if_false, h1]
+
 /-- non-vacuity: the former stale-residual witness through batch — `context.key && true`, `context = {key: ?k}`,
-    `k ∈ [true, false]` — satisfies the premise, and the run allows exactly for `k = true` -/
+    `k ∈ [true, false]` — satisfies the input-level premises (hence `runDomain`), and the run allows exactly for `k = true` -/
 example :
     let env : Env := { entities := [], principal := .entity "User" "a", action := .entity "Action" "a",
                        resource := .entity "Doc" "a", context := .record [("key", mkVariable "k")] }
     let ps : List (PolicyID × Policy) :=
       [("p0", { effect := .permit, conditions := [(true, .binop .and (.access (.var .context) "key") (.lit (.bool true)))] })]
-    runDomain [("k", [.bool true, .bool false])] env ps = true ∧
+    (noIgnoreInput env = true ∧ (∀ ip ∈ ps, ip.2.noIgnoreLits = true ∧ ip.2.recKeysDistinct = true)) ∧
+      (∀ σs ∈ product [("k", [.bool true, .bool false])], requestTyped (substManyEnv σs env) = true) ∧
+      runDomain [("k", [.bool true, .bool false])] env ps = true ∧
       (trace [("k", [.bool true, .bool false])] env ps []).map (fun o => o.2.map (·.allow)) = [some true, some false] := by
-  decide +kernel
+  refine ⟨⟨by decide +kernel, ?_⟩, by decide +kernel, by decide +kernel, by decide +kernel⟩
+  intro ip hip
+  simp only [List.mem_singleton] at hip
+  subst hip
+  exact ⟨by decide +kernel, by decide +kernel⟩
 
 end CedarGo
